@@ -712,6 +712,33 @@ Qed.
 Lemma wfr_wfd r : wfr r -> wfd (image r).
 Proof. destruct r; simpl; [intros [H _]; exact H|auto]. Qed.
 
+(* takeSnapshot touches the snapshot store and the log store only *)
+Lemma take_snapshot_good P s fs : wfu s -> handler_good P s NSnapshot (take_snapshot P s fs).
+Proof.
+  intros Hw. pose proof Hw as [Hwd Hvt].
+  assert (Hrefl : good_d P s NSnapshot (dproj s)) by (apply good_d_refl; exact Hwd).
+  assert (Hns : forall tr s', forallb (fun e => negb (is_stable_ev e)) tr = true -> dproj s' = dproj s -> v_term s' = v_term s ->
+            wfu s' /\ dproj s' = fold_left vt_apply tr (dproj s) /\
+            (forall j, good_d P s NSnapshot (fold_left vt_apply (firstn j tr) (dproj s)))).
+  { intros tr s' Hf Hd Hv. split; [|split].
+    - unfold wfu, wfd in *. unfold dproj in Hd. inversion Hd as [[E1 E2 E3]]. rewrite E1, E2, Hv. auto.
+    - rewrite fold_nostable by exact Hf. exact Hd.
+    - intros j. rewrite fold_nostable by (apply firstn_forallb; exact Hf). exact Hrefl. }
+  unfold take_snapshot, handler_good. destruct (fsm_index s) as [fi ft].
+  destruct (fi =? 0); [apply (Hns [] s); reflexivity|].
+  destruct (fi <? v_committedIdx s); [apply (Hns [] s); reflexivity|].
+  destruct (next_fail fs) as [fc fs1]. destruct fc; [apply (Hns [ESnap fi ft false] s); reflexivity|].
+  destruct (next_fail fs1) as [fcl fs2]. destruct fcl; [apply (Hns [ESnap fi ft false] s); reflexivity|].
+  match goal with |- context [run_compaction ?S ?F ?R] =>
+    pose proof (run_compaction_spec S F R) as Hc; destruct (run_compaction S F R) as [[s2 trc] fs3] end.
+  destruct Hc as (C1 & C2 & C3).
+  apply Hns.
+  - simpl. unfold sfilter in C3. clear -C3. induction trc as [|e r IH]; simpl in *; [reflexivity|].
+    destruct (is_stable_ev e); [discriminate|]. simpl. apply IH. exact C3.
+  - rewrite C1. reflexivity.
+  - rewrite C2. reflexivity.
+Qed.
+
 (* Every event, every failure pattern, every crash cut *)
 Theorem step_good P r e cut fs : wfr r ->
   let '(r', ob, out) := step_full P r e cut fs in
@@ -723,7 +750,7 @@ Proof.
   assert (Hsame : forall ob, wfr r /\ good_d P (image r) e (dproj (image r)) /\
             (forall q t, ob = ONone -> ONone = OVote q t true -> live (image r) = Some (vq_term q, vq_addr q))).
   { intros ob. split; [exact Hw|]. split; [apply good_d_refl; exact Hwd|]. intros; discriminate. }
-  unfold step_full. destruct r as [s|s]; destruct e as [q|q|a|q| | | |]; simpl.
+  unfold step_full. destruct r as [s|s]; destruct e as [q|q|a|q| | | | |]; simpl.
   - (* vote *)
     pose proof (request_vote_good P s fs q Hw) as Hrv.
     assert (Hh : handler_good P s (NVote q) (request_vote s fs q)).
@@ -766,6 +793,13 @@ Proof.
     destruct (boot P s) as [r' out] eqn:EB. apply boot_spec in EB; [|exact Hwd]. destruct EB as [B1 B2].
     split; [exact B1|]. split; [rewrite B2; apply good_d_refl; exact Hwd|]. split; intros; discriminate.
   - split; [exact Hw|]. split; [apply good_d_refl; exact Hwd|]. split; intros; discriminate.
+  - (* snapshot *)
+    pose proof (take_snapshot_good P s fs Hw) as Hts. destruct (fsm_index s) as [fi ft] eqn:Efi.
+    match goal with |- context [finish P ?E ?M ?SI s cut ?O] =>
+      pose proof (finish_good P E M SI s NSnapshot cut O Hw Hts) as Hf;
+      destruct (finish P E M SI s cut O) as [[r' ob] out] end.
+    destruct Hf as (F1 & F2 & F3). split; [exact F1|]. split; [exact F2|].
+    destruct F3 as [->|(s' & rr & tr & fs' & Ho & -> & ->)]; split; intros; discriminate.
   - split; [exact Hw|]. split; [apply good_d_refl; exact Hwd|]. split; intros; discriminate.
   - split; [exact Hw|]. split; [apply good_d_refl; exact Hwd|]. split; intros; discriminate.
   - split; [exact Hw|]. split; [apply good_d_refl; exact Hwd|]. split; intros; discriminate.
@@ -774,6 +808,7 @@ Proof.
   - split; [exact Hw|]. split; [apply good_d_refl; exact Hwd|]. split; intros; discriminate.
   - destruct (boot P s) as [r' out] eqn:EB. apply boot_spec in EB; [|exact Hwd]. destruct EB as [B1 B2].
     split; [exact B1|]. split; [rewrite B2; apply good_d_refl; exact Hwd|]. split; intros; discriminate.
+  - split; [exact Hw|]. split; [apply good_d_refl; exact Hwd|]. split; intros; discriminate.
   - split; [exact Hw|]. split; [apply good_d_refl; exact Hwd|]. split; intros; discriminate.
 Qed.
 
